@@ -36,12 +36,24 @@ let run (path : String.t) =
            let should = (s = "T" && c = "trusted") in
            if registered && not should then (prop := false; note (Printf.sprintf "a client presenting '%s' registered a stream on the server presenting the %s certificate (via %s)" c (if s = "T" then "trusted" else "other-CA") via));
            if should && not registered then (prop := false; note (Printf.sprintf "the generated certificate set does not work for localhost (via %s): %s" via res))
+         | ["pairt"; s; c; via; "other"; "->"; res] ->
+           incr pairs;
+           Hashtbl.replace seen (s, c ^ "/trust-other", via) ();
+           Hashtbl.replace distinct (s ^ c ^ via ^ "other") ();
+           let registered = (res = "registered") in
+           let key = s ^ "-" ^ c ^ "-trustother-" ^ (if registered then "registered" else "refused") in
+           Hashtbl.replace outcomes key (1 + try Hashtbl.find outcomes key with Not_found -> 0);
+           let sid = (if s = "T" then SrvTrusted else SrvOtherCa) in
+           if matrix_trust sid IdTrusted true <> registered then (corr := false; note (Printf.sprintf "server %s / client trusting the other CA via %s: implementation %s, model %s" s via res (if matrix_trust sid IdTrusted true then "admits" else "refuses")));
+           (* the client was configured with the other CA: it may only talk to the server certified by that CA *)
+           if registered && s = "T" then (prop := false; note (Printf.sprintf "a client configured with the other CA talked to the server certified by the trusted CA (via %s)" via));
+           if (not registered) && s = "O" then (prop := false; note (Printf.sprintf "a client configured with the other CA refused the server certified by that CA (via %s): %s" via res))
          | "harness_error" :: _ -> prop := false; note lines.(!i)
          | ["end"] -> ended := true
          | _ -> ());
         incr i
       done;
-      if not !ended || Hashtbl.length seen < 18 then (prop := false; note "the identity matrix was not completed");
+      if not !ended || Hashtbl.length seen < 22 then (prop := false; note "the identity matrix was not completed");
       if not !corr then incr corr_fail;
       if not !prop then incr prop_fail;
       if not (!corr && !prop) then
